@@ -222,6 +222,9 @@ class MaskSplitter(DirectModule):
                 center_y - self.acs_region[1] // 2 : center_y + self.acs_region[1] // 2,
             ] = False
 
+        # `gaussian_fill` places `nonzero_mask_count + 1` samples and never returns if fewer are available.
+        nonzero_mask_count = min(nonzero_mask_count, int(temp_mask.sum()) - 1)
+
         target_mask = torch.zeros_like(mask, dtype=mask.dtype, device=mask.device)
 
         target_mask = torch.tensor(
